@@ -477,6 +477,9 @@ def poc_gradient_zero_crossing(force, ret_details=False):
                 # center of the array (and two times, because we did two
                 # filter operations).
                 cp = y.size - np.where(gradpos[::-1])[0][0] - cutoff + filtsize
+                # The filter-size correction must not push the estimate
+                # beyond the data.
+                cp = min(cp, y.size - 1)
 
                 if ret_details:
                     # scale the gradient so that it aligns with the force
